@@ -522,7 +522,9 @@ func (obj *Package) Remove(name string) (removed bool) {
 		delete(obj.vars, name)
 		removed = true
 		if vv.Pkg == obj {
-			obj.withdrawVar(name, vv, false)
+			// The package no longer has a variable of its own, what the
+			// packages it uses export under that name shows again.
+			obj.withdrawVar(name, vv, true)
 		} else if obj.funcs[name] == nil {
 			// An imported variable is gone, so is the import.
 			delete(obj.Imports, name)
@@ -683,7 +685,9 @@ func (obj *Package) Undefine(name string) {
 	if fi := obj.funcs[name]; fi != nil {
 		delete(obj.funcs, name)
 		if fi.Pkg == obj {
-			obj.withdrawFunc(name, fi, false)
+			// The package no longer has a function of its own, what the
+			// packages it uses export under that name shows again.
+			obj.withdrawFunc(name, fi, true)
 		} else if obj.vars[name] == nil {
 			// An imported function is gone, so is the import.
 			delete(obj.Imports, name)
